@@ -29,8 +29,13 @@ def while_do_(
             obs = reactivex.from_future(source)
         else:
             obs = source
-        it = itertools.takewhile(condition, (obs for _ in infinite()))
-        return reactivex.concat_with_iterable(it)
+        def factory(_: object) -> Observable[_T]:
+            # Create a fresh iterator on every subscription so that the
+            # loop starts over for each subscriber.
+            it = itertools.takewhile(condition, (obs for _ in infinite()))
+            return reactivex.concat_with_iterable(it)
+
+        return reactivex.defer(factory)
 
     return while_do
 
